@@ -9,4 +9,6 @@ pub mod json;
 pub mod instr_sx;
 pub mod corpus;
 pub mod gen_prog;
+pub mod ast_sx;
+pub mod refrun;
 pub mod rowcol;
